@@ -5,7 +5,7 @@ from common import cz, cbool, cstr, clist
 ID = 'C14'
 GEN_MODULES = ['Noise']
 MODEL_TARGETS = ['coq/C14/Run.vo']
-PROOF_TARGETS = ['coq/C14/Proofs.vo']
+PROOF_TARGETS = ['coq/C14/Proofs.vo', 'coq/C14/PauliBounds.vo']
 PROPS_FILE = 'coq/Props/C14.v'
 RUN_MODULE = 'QCE.C14.Run'
 COQ_HEADER = 'From Gen Require Import Noise.\nFrom QCE Require Import C14.Model.'
@@ -58,31 +58,31 @@ def gen_body(rng, qubits, depth, nmeas_before, budget):
     for _ in range(n):
         r = rng.random()
         avail = nmeas_before + nm
-        if r < 0.10:
+        if r < 0.08:
             items.append(ins(rng.choice(['R', 'R', 'RX']), [['q', rng.choice(qubits)]]))
-        elif r < 0.36:
+        elif r < 0.30:
             for q in rng.sample(qubits, rng.randint(1, len(qubits))):
                 items.append(ins(rng.choice(GATES1 if rng.random() < 0.5 else ['H', 'X']), [['q', q]]))
-        elif r < 0.48 and len(qubits) >= 2:
+        elif r < 0.40 and len(qubits) >= 2:
             qs = rng.sample(qubits, 2 * rng.randint(1, len(qubits) // 2))
             for i in range(0, len(qs), 2):
                 items.append(ins('CZ', [['q', qs[i]], ['q', qs[i + 1]]]))
-        elif r < 0.66:
+        elif r < 0.58:
             qs = rng.sample(qubits, rng.randint(1, len(qubits)))
             if rng.random() < 0.15:
                 qs = qs + [qs[0]]
             items.append(ins('M', [['q', q] for q in qs]))
             nm += len(qs)
-        elif r < 0.74 and avail >= 1:
+        elif r < 0.65 and avail >= 1:
             k = rng.randint(1, min(2, avail))
             recs = [['rec', -j] for j in rng.sample(range(1, avail + 1), k)]
             items.append(ins('DETECTOR', recs, rng.choice([[rng.choice(qubits), 0], [rng.choice(qubits), 0], [rng.randint(0, 3)], None,
                                                            [1, 2, 3]])))
-        elif r < 0.78 and avail >= 1:
+        elif r < 0.68 and avail >= 1:
             items.append(ins('OBSERVABLE_INCLUDE', [['rec', -rng.randint(1, avail)]], [rng.randint(0, 1)]))
-        elif r < 0.83:
+        elif r < 0.72:
             items.append(ins('SHIFT_COORDS', [], rng.choice([[0, 1], [0, 1], [1, 0], [2], [0, 0, 1]])))
-        elif r < 0.90 and depth < 2 and budget >= 3:
+        elif r < 0.80 and depth < 2 and budget >= 3:
             body, bm = gen_body(rng, qubits, depth + 1, avail, max(2, budget // 2))
             cnt = rng.choice([1, 2, 2, 3])
             items.append(['R', cnt, body])
@@ -191,11 +191,11 @@ def fixed_cases():
 
 def gen_cases(rng, tier):
     cases = [{'k': 'tables'}] + [{'k': 'alias', 'given': a} for a in ALIASES] + fixed_cases()
-    n = 260 if tier == 'quick' else 4000
+    n = 400 if tier == 'quick' else 5000
     for _ in range(n):
         nq = rng.choice([1, 2, 2, 3, 3, 4])
         qubits = sorted(rng.sample(range(0, 7), nq)) if rng.random() < 0.4 else list(range(nq))
-        items, _ = gen_body(rng, qubits, 0, 0, rng.choice([3, 6, 10, 14, 18]))
+        items, _ = gen_body(rng, qubits, 0, 0, rng.choice([3, 6, 10, 14, 18, 22]))
         if rng.random() < 0.12:
             items = strip_meas(items)
         mkind, qmap = gen_map(rng, qubits)
@@ -343,6 +343,34 @@ def known_class(c, o):
         if any(i[0] == 'M' for i in b) and mz > max([other.get(i[0], 0) for i in b if i[0] != 'M'] + [0]):
             return F6_CLASS
     return None
+
+
+def shrink_candidates(c):
+    """smaller variants of a dress case: drop one top-level item, unroll/lower a REPEAT, drop map / individual entries,
+    fall back to the library defaults"""
+    if c['k'] != 'dress':
+        return
+    items = c['circuit']
+    for i in range(len(items)):
+        yield mk(items[:i] + items[i + 1:], c['settings'], c['map'], c.get('mkind', '?'))
+    for i, it in enumerate(items):
+        if it[0] == 'R':
+            yield mk(items[:i] + it[2] + items[i + 1:], c['settings'], c['map'], c.get('mkind', '?'))
+            if it[1] > 1:
+                yield mk(items[:i] + [['R', it[1] - 1, it[2]]] + items[i + 1:], c['settings'], c['map'], c.get('mkind', '?'))
+        elif it[1] == 'M' and len(it[2]) > 1:
+            yield mk(items[:i] + [ins('M', it[2][:-1])] + items[i + 1:], c['settings'], c['map'], c.get('mkind', '?'))
+    for i in range(len(c['map'])):
+        yield mk(items, c['settings'], c['map'][:i] + c['map'][i + 1:], c.get('mkind', '?'))
+    s = c['settings']
+    if s is not None:
+        yield mk(items, None, c['map'], c.get('mkind', '?'))
+        for i in range(len(s['individual'])):
+            yield mk(items, dict(s, individual=s['individual'][:i] + s['individual'][i + 1:]), c['map'], c.get('mkind', '?'))
+        if s.get('durations') is not None:
+            yield mk(items, dict(s, durations=None), c['map'], c.get('mkind', '?'))
+        if s.get('default') is not None:
+            yield mk(items, dict(s, default=None), c['map'], c.get('mkind', '?'))
 
 
 def sample(c, o):
